@@ -16,7 +16,9 @@ RULE = (
     "Documents: templates, samples, decorated packages, generated text documents whose paragraphs put every "
     "ordered pair of {text, spaces, text:s, text:tab, text:line-break, span, link, note, annotation, frame, "
     "bookmark, reference mark} adjacent (144 pairs, each also between words), optionally after 0-3 edits. Save "
-    "sequences of length 1-3 over configurations pretty in {False, True} x packaging in {zip, folder, xml}. "
+    "sequences of length 1-3 over configurations pretty in {False, True} x packaging in {zip, folder, xml}; in a "
+    "third of the random sequences every zip save goes to one and the same BytesIO object or path (pretty first, "
+    "plain last: the second archive is the smaller one). "
     "One evaluation = one save judged: every XML part of the artefact has the same element skeleton and "
     "attribute values as the in-memory part before the first save, the same readable text (O-TEXT) for every "
     "paragraph/heading in order, the same non-paragraph character data; binary parts byte-identical; the "
@@ -150,11 +152,14 @@ def run_case(case, res):
         E0 = DL.expected_state(doc, model)
         prev = None
         seen_cfg = {}
+        reuse = {} if case.get("reuse") else None
         for i, (pretty, packaging) in enumerate(case["saves"]):
             how = {"zip": "zip-io" if i % 2 else "zip-path", "folder": "folder", "xml": "xml-io"}[packaging]
+            if reuse is not None and packaging == "zip":
+                how = case["reuse"]  # every zip save of the sequence into the same BytesIO / the same path
             before = DL.expected_state(doc, model)
             try:
-                artefact, pkg = DL.save_doc(doc, how, tmp, pretty=pretty, tag=str(i))
+                artefact, pkg = DL.save_doc(doc, how, tmp, pretty=pretty, tag=str(i), reuse=reuse)
             except Exception as e:
                 import traceback
 
@@ -183,7 +188,7 @@ def run_case(case, res):
                 seen_cfg[key] = dict(pkg.parts)
             if res is not None:
                 res.judge()
-                res.cls((case["source"]["kind"], "pretty" if pretty else "plain", packaging, f"save{i}", f"after={prev}", case.get("pair", "")), True)
+                res.cls((case["source"]["kind"], "pretty" if pretty else "plain", packaging, f"save{i}", f"after={prev}", case.get("pair", ""), "same-target:" + case["reuse"] if case.get("reuse") else ""), True)
             if out:
                 return out
             prev = f"{'pretty' if pretty else 'plain'}-{packaging}"
@@ -228,6 +233,10 @@ def run(ctx, res):
         rng = ctx.rng(c)
         saves = [rng.choice(CONFIGS) for _ in range(rng.randint(1, 3))]
         case = {"source": DL.gen_source(rng), "edits": DL.gen_edits(rng, rng.choice([0, 1, 3]), allow=["touch_body", "touch_styles", "append_paragraph", "meta_title", "insert_style", "table_set_value", "add_file_io", "insert_image_frame", "touch_manifest"]), "saves": saves}
+        if rng.random() < 0.35:
+            # the zip saves of the sequence all go to one target, larger archive first
+            case["reuse"] = rng.choice(["zip-io", "zip-io", "zip-path"])
+            case["saves"] = [(True, "zip")] + saves + [(False, "zip")]
         v = run_case(case, res)
         if c < 2:
             res.sample(case)
@@ -242,7 +251,7 @@ def replay(case):
 
 
 MANIFEST = {
-    "text": "Exploration by runtime monitoring: templates, samples, decorated packages and generated paragraphs covering every ordered adjacency of twelve inline kinds are saved under every pretty x packaging configuration and in sequences of saves; an independent reader compares each artefact layout-insensitively (element skeleton, attribute values, O-TEXT reading of every paragraph and heading, other character data) with the in-memory state taken before the first save; a purity monitor compares the in-memory state before and after every save; repeated configurations must write equal content. Held = no difference on the saves observed, apart from listed known findings.",
+    "text": "Exploration by runtime monitoring: templates, samples, decorated packages and generated paragraphs covering every ordered adjacency of twelve inline kinds are saved under every pretty x packaging configuration and in sequences of saves (a third of them writing every zip of the sequence into one BytesIO object or one path, the larger pretty archive first); an independent reader compares each artefact layout-insensitively (element skeleton, attribute values, O-TEXT reading of every paragraph and heading, other character data) with the in-memory state taken before the first save; a purity monitor compares the in-memory state before and after every save; repeated configurations must write equal content. Held = no difference on the saves observed, apart from listed known findings.",
     "note": "Trusted: vf/oracles/odftext.py for 'white space consumers ignore', lxml, zipfile. Known finding F-D6 (pretty-print indentation leaking into paragraphs with non-text inline children) is classified by vf/known.py on the plain paragraph, not on the outcome.",
     "technique": "runtime monitoring: layout-insensitive independent reader of every artefact + before/after purity digest of the in-memory document",
 }
